@@ -1,2 +1,381 @@
-//! stub (being built)
-pub fn replay(_a: &[String]) -> i32 { eprintln!("not built yet"); 2 }
+//! C06 — compiled predicates vs the interpreter.
+//!
+//! `qev compiled-replay <in.ndjson> <out.ndjson>`
+//!
+//! One input line = {"variant", "table": {f,g,k,m,d: [token codes of the R table rows]}, "lens": [...],
+//! "cases": [{"id", "e": AST as emitted by spec/CompiledExpr.tla}]}.
+//! For every case and every batch length L the batch is the token table tiled to L rows (row i = table[i % R]),
+//! concretized HERE (codes -> f64 / i64 / i32 / days).  We call the public
+//!   `CompiledPredicate::compile(expr, schema)` + `.evaluate(batch)`   and   `evaluate_expr(batch, expr)`
+//! and compare validity bit for bit and the value bit on every valid row.  The per-row results of the longest batch
+//! are returned (first R rows) for the comparison with the spec; every other length must be the same row function
+//! (a chunk-boundary defect breaks exactly that).  The consumer `FilterExec` over a `MemoryTableExec` is driven on
+//! the 1025- and 2049-row batches and, for renderable expressions, `SELECT id FROM t WHERE ...` through
+//! `ExecutionContext` (run the harness a second time with QE_COMPILE=0 to get the interpreter-only answers).
+use crate::util::*;
+use arrow::array::{Array, BooleanArray, Date32Array, Float64Array, Int32Array, Int64Array};
+use arrow::datatypes::{DataType, Field, Schema, SchemaRef};
+use arrow::record_batch::RecordBatch;
+use futures::TryStreamExt;
+use query_engine::physical::compiled_expr::{compilation_enabled, CompiledPredicate};
+use query_engine::physical::operators::{evaluate_expr, FilterExec, MemoryTableExec};
+use query_engine::physical::PhysicalOperator;
+use query_engine::planner::{BinaryOp, Column, Expr, ScalarValue, UnaryOp};
+use serde_json::{json, Value};
+use std::sync::Arc;
+
+const NULLTOK: i64 = -1073741824;
+
+/// spec code -> f64 (the concretization of the double tokens)
+fn f_of(code: i64) -> f64 {
+    match code {
+        -1000 => f64::NEG_INFINITY,
+        1000 => f64::INFINITY,
+        -1 => -0.0,
+        1 => 0.0,
+        2000 => f64::NAN,
+        c => (c / 10) as f64,
+    }
+}
+fn i_of(code: i64, min: i64, max: i64) -> i64 {
+    match code {
+        -9 => min,
+        9 => max,
+        c => c,
+    }
+}
+
+fn schema() -> SchemaRef {
+    Arc::new(Schema::new(vec![
+        Field::new("f", DataType::Float64, true),
+        Field::new("g", DataType::Float64, true),
+        Field::new("k", DataType::Int64, true),
+        Field::new("m", DataType::Int32, true),
+        Field::new("d", DataType::Date32, true),
+        Field::new("id", DataType::Int64, false),
+    ]))
+}
+
+struct Table {
+    f: Vec<i64>,
+    g: Vec<i64>,
+    k: Vec<i64>,
+    m: Vec<i64>,
+    d: Vec<i64>,
+}
+
+fn toks(v: &Value) -> Vec<i64> {
+    v.as_array().unwrap().iter().map(|x| x.as_i64().unwrap()).collect()
+}
+
+fn batch_of(t: &Table, len: usize) -> RecordBatch {
+    let r = t.f.len();
+    let col = |src: &Vec<i64>| -> Vec<i64> { (0..len).map(|i| src[i % r]).collect() };
+    let opt = |v: i64| if v == NULLTOK { None } else { Some(v) };
+    let f: Float64Array = col(&t.f).into_iter().map(|c| opt(c).map(f_of)).collect();
+    let g: Float64Array = col(&t.g).into_iter().map(|c| opt(c).map(f_of)).collect();
+    let k: Int64Array = col(&t.k).into_iter().map(|c| opt(c).map(|c| i_of(c, i64::MIN, i64::MAX))).collect();
+    let m: Int32Array = col(&t.m).into_iter().map(|c| opt(c).map(|c| i_of(c, i32::MIN as i64, i32::MAX as i64) as i32)).collect();
+    let d: Date32Array = col(&t.d).into_iter().map(|c| opt(c).map(|c| i_of(c, i32::MIN as i64, i32::MAX as i64) as i32)).collect();
+    let id: Int64Array = (0..len as i64).collect::<Vec<_>>().into();
+    RecordBatch::try_new(schema(), vec![Arc::new(f), Arc::new(g), Arc::new(k), Arc::new(m), Arc::new(d), Arc::new(id)]).unwrap()
+}
+
+fn value_expr(x: &Value) -> Expr {
+    match x["k"].as_str().unwrap() {
+        "col" => Expr::Column(Column::new(x["c"].as_str().unwrap())),
+        "lit" => {
+            let v = x["v"].as_i64().unwrap();
+            Expr::Literal(match x["t"].as_str().unwrap() {
+                "f64" => ScalarValue::Float64(f_of(v).into()),
+                "i64" => ScalarValue::Int64(i_of(v, i64::MIN, i64::MAX)),
+                "i32" => ScalarValue::Int32(i_of(v, i32::MIN as i64, i32::MAX as i64) as i32),
+                "date" => ScalarValue::Date32(i_of(v, i32::MIN as i64, i32::MAX as i64) as i32),
+                other => panic!("harness: literal type {other}"),
+            })
+        }
+        "ar" => Expr::BinaryExpr {
+            left: Box::new(value_expr(&x["a"])),
+            op: match x["op"].as_str().unwrap() {
+                "add" => BinaryOp::Add,
+                "sub" => BinaryOp::Subtract,
+                "mul" => BinaryOp::Multiply,
+                "div" => BinaryOp::Divide,
+                other => panic!("harness: arithmetic {other}"),
+            },
+            right: Box::new(value_expr(&x["b"])),
+        },
+        other => panic!("harness: value expression {other}"),
+    }
+}
+
+pub fn bool_expr(q: &Value) -> Expr {
+    let k = q["k"].as_str().unwrap();
+    match k {
+        "cmp" => Expr::BinaryExpr {
+            left: Box::new(value_expr(&q["a"])),
+            op: match q["op"].as_str().unwrap() {
+                "eq" => BinaryOp::Eq,
+                "ne" => BinaryOp::NotEq,
+                "lt" => BinaryOp::Lt,
+                "le" => BinaryOp::LtEq,
+                "gt" => BinaryOp::Gt,
+                "ge" => BinaryOp::GtEq,
+                other => panic!("harness: comparison {other}"),
+            },
+            right: Box::new(value_expr(&q["b"])),
+        },
+        "btw" => Expr::Between {
+            expr: Box::new(value_expr(&q["x"])),
+            low: Box::new(value_expr(&q["lo"])),
+            high: Box::new(value_expr(&q["hi"])),
+            negated: q["neg"].as_i64().unwrap_or(0) != 0,
+        },
+        "not" => Expr::UnaryExpr { op: UnaryOp::Not, expr: Box::new(bool_expr(&q["a"])) },
+        "and" | "or" => Expr::BinaryExpr {
+            left: Box::new(bool_expr(&q["a"])),
+            op: if k == "and" { BinaryOp::And } else { BinaryOp::Or },
+            right: Box::new(bool_expr(&q["b"])),
+        },
+        other => panic!("harness: boolean expression {other}"),
+    }
+}
+
+/// SQL text for expressions whose literals can be written down (finite, no -0.0, no type extremes)
+fn sql_value(x: &Value) -> Option<String> {
+    match x["k"].as_str().unwrap() {
+        "col" => Some(x["c"].as_str().unwrap().to_string()),
+        "lit" => {
+            let v = x["v"].as_i64().unwrap();
+            match x["t"].as_str().unwrap() {
+                "f64" => match v {
+                    1 => Some("0.0".into()),
+                    c if c % 10 == 0 && c.abs() < 1000 => Some(if c < 0 { format!("({}.0)", c / 10) } else { format!("{}.0", c / 10) }),
+                    _ => None,
+                },
+                "i64" if v.abs() < 9 => Some(if v < 0 { format!("({v})") } else { v.to_string() }),
+                _ => None,
+            }
+        }
+        "ar" => {
+            let op = match x["op"].as_str().unwrap() { "add" => "+", "sub" => "-", "mul" => "*", _ => "/" };
+            Some(format!("({} {} {})", sql_value(&x["a"])?, op, sql_value(&x["b"])?))
+        }
+        _ => None,
+    }
+}
+fn sql_bool(q: &Value) -> Option<String> {
+    let k = q["k"].as_str().unwrap();
+    Some(match k {
+        "cmp" => {
+            let op = match q["op"].as_str().unwrap() { "eq" => "=", "ne" => "<>", "lt" => "<", "le" => "<=", "gt" => ">", _ => ">=" };
+            format!("({} {} {})", sql_value(&q["a"])?, op, sql_value(&q["b"])?)
+        }
+        "btw" => format!("({} {}BETWEEN {} AND {})", sql_value(&q["x"])?, if q["neg"].as_i64().unwrap_or(0) != 0 { "NOT " } else { "" },
+                         sql_value(&q["lo"])?, sql_value(&q["hi"])?),
+        "not" => format!("(NOT {})", sql_bool(&q["a"])?),
+        "and" => format!("({} AND {})", sql_bool(&q["a"])?, sql_bool(&q["b"])?),
+        "or" => format!("({} OR {})", sql_bool(&q["a"])?, sql_bool(&q["b"])?),
+        _ => return None,
+    })
+}
+
+fn chars(b: &BooleanArray) -> Vec<u8> {
+    (0..b.len()).map(|i| if b.is_null(i) { b'N' } else if b.value(i) { b'1' } else { b'0' }).collect()
+}
+
+fn interp(batch: &RecordBatch, expr: &Expr) -> Result<BooleanArray, String> {
+    let (b, e) = (batch.clone(), expr.clone());
+    match catch(std::panic::AssertUnwindSafe(move || evaluate_expr(&b, &e))) {
+        Ok(Ok(arr)) => arr.as_any().downcast_ref::<BooleanArray>().cloned().ok_or_else(|| "not boolean".to_string()),
+        Ok(Err(e)) => Err(e.to_string()),
+        Err(p) => Err(format!("panic: {p}")),
+    }
+}
+
+fn filter_ids(rt: &tokio::runtime::Runtime, batch: &RecordBatch, expr: &Expr) -> Result<Vec<i64>, String> {
+    let (b, e) = (batch.clone(), expr.clone());
+    let r = catch(std::panic::AssertUnwindSafe(move || -> Result<Vec<i64>, String> {
+        let scan = MemoryTableExec::new("t", b.schema(), vec![b], None);
+        let filter = FilterExec::new(Arc::new(scan), e);
+        let mut ids = Vec::new();
+        for p in 0..filter.output_partitions() {
+            let batches: Vec<RecordBatch> = rt
+                .block_on(async { filter.execute(p).await?.try_collect::<Vec<_>>().await })
+                .map_err(|e| e.to_string())?;
+            for ob in batches {
+                let a = ob.column(ob.schema().index_of("id").unwrap()).as_any().downcast_ref::<Int64Array>().unwrap().clone();
+                ids.extend(a.values().iter().copied());
+            }
+        }
+        ids.sort_unstable();
+        Ok(ids)
+    }));
+    match r {
+        Ok(x) => x,
+        Err(p) => Err(format!("panic: {p}")),
+    }
+}
+
+pub fn replay(a: &[String]) -> i32 {
+    quiet_panics();
+    if a.len() < 2 {
+        eprintln!("usage: qev compiled-replay <in.ndjson> <out.ndjson>");
+        return 2;
+    }
+    let groups = read_ndjson(&a[0]);
+    let mut out = Out::create(&a[1]);
+    let rt = tokio::runtime::Builder::new_multi_thread().worker_threads(2).enable_all().build().unwrap();
+    let sch = schema();
+    for g in groups {
+        let t = Table { f: toks(&g["table"]["f"]), g: toks(&g["table"]["g"]), k: toks(&g["table"]["k"]), m: toks(&g["table"]["m"]), d: toks(&g["table"]["d"]) };
+        let r = t.f.len();
+        let lens: Vec<usize> = g["lens"].as_array().unwrap().iter().map(|x| x.as_u64().unwrap() as usize).collect();
+        let lmax = *lens.iter().max().unwrap();
+        assert!(lmax >= r, "harness: the longest batch must cover the token table");
+        let batches: Vec<RecordBatch> = lens.iter().map(|&l| batch_of(&t, l)).collect();
+        let want_sql = g["sql"].as_i64().unwrap_or(0) != 0;
+        let mut ctx = query_engine::ExecutionContext::new();
+        if want_sql {
+            let bi = lens.iter().position(|&l| l == lmax).unwrap();
+            ctx.register_table("t", sch.clone(), vec![batches[bi].clone()]);
+        }
+        let mut recs = Vec::new();
+        for c in g["cases"].as_array().unwrap() {
+            let expr = bool_expr(&c["e"]);
+            let mut rec = json!({"id": c["id"], "mode": if compilation_enabled() { 1 } else { 0 }});
+            let e1 = expr.clone();
+            let s1 = sch.clone();
+            let compiled = match catch(std::panic::AssertUnwindSafe(move || CompiledPredicate::compile(&e1, &s1))) {
+                Ok(c) => c,
+                Err(p) => {
+                    rec["panic"] = json!(format!("compile panicked: {p}"));
+                    recs.push(rec);
+                    continue;
+                }
+            };
+            rec["compiled"] = json!(if compiled.is_some() { 1 } else { 0 });
+            let mut canon_i: Vec<u8> = Vec::new();
+            let mut canon_c: Vec<u8> = Vec::new();
+            let mut per_len = Vec::new();
+            let mut results: Vec<(usize, Option<Vec<u8>>, Option<Vec<u8>>)> = Vec::new();
+            for (li, &l) in lens.iter().enumerate() {
+                let b = &batches[li];
+                let mut lr = json!({"len": l});
+                let ir = interp(b, &expr);
+                let iv = match &ir {
+                    Ok(arr) => Some(chars(arr)),
+                    Err(e) => {
+                        lr["ierr"] = json!(e.chars().take(160).collect::<String>());
+                        None
+                    }
+                };
+                let mut cv = None;
+                if let Some(cp) = &compiled {
+                    let b2 = b.clone();
+                    match catch(std::panic::AssertUnwindSafe(|| cp.evaluate(&b2))) {
+                        Ok(Some(arr)) => {
+                            if arr.len() != l {
+                                lr["clen"] = json!(arr.len());
+                            }
+                            // raw value bits under NULL (not observable through a filter; fidelity only)
+                            if let Ok(ia) = &ir {
+                                if ia.len() == arr.len() {
+                                    let raw = (0..l).filter(|&i| arr.is_null(i) && ia.is_null(i) && arr.values().value(i) != ia.values().value(i)).count();
+                                    if raw > 0 {
+                                        lr["rawdiff"] = json!(raw);
+                                    }
+                                }
+                            }
+                            cv = Some(chars(&arr));
+                        }
+                        Ok(None) => lr["cnone"] = json!(1),
+                        Err(p) => lr["cpanic"] = json!(p),
+                    }
+                }
+                if let (Some(i), Some(c)) = (&iv, &cv) {
+                    let diff: Vec<usize> = (0..i.len().min(c.len())).filter(|&x| i[x] != c[x]).collect();
+                    let vdiff = (0..i.len().min(c.len())).filter(|&x| (i[x] == b'N') != (c[x] == b'N')).count();
+                    lr["vdiff"] = json!(vdiff);
+                    lr["ndiff"] = json!(diff.len());
+                    lr["diff"] = json!(diff.iter().take(400).collect::<Vec<_>>());
+                    if i.len() != c.len() {
+                        lr["lenmismatch"] = json!([i.len(), c.len()]);
+                    }
+                }
+                if l == lmax {
+                    if let Some(i) = &iv {
+                        canon_i = i[..r].to_vec();
+                    }
+                    if let Some(c) = &cv {
+                        canon_c = c[..r].to_vec();
+                    }
+                }
+                // the consumer
+                if l == 1025 || l == lmax {
+                    match filter_ids(&rt, b, &expr) {
+                        Ok(ids) => {
+                            lr["kept_n"] = json!(ids.len());
+                            let mut s = vec![b'0'; l];
+                            for i in &ids {
+                                s[*i as usize] = b'1';
+                            }
+                            lr["kept"] = json!(String::from_utf8(s).unwrap());
+                        }
+                        Err(e) => lr["ferr"] = json!(e.chars().take(160).collect::<String>()),
+                    }
+                }
+                results.push((l, iv, cv));
+                per_len.push(lr);
+            }
+            // every length computes the same row function
+            let mut incons = Vec::new();
+            for (l, iv, cv) in &results {
+                for (which, v, canon) in [("I", iv, &canon_i), ("C", cv, &canon_c)] {
+                    if let Some(v) = v {
+                        if canon.is_empty() {
+                            continue;
+                        }
+                        if let Some(i) = (0..v.len()).find(|&i| v[i] != canon[i % r]) {
+                            incons.push(json!([l, i, which, (v[i] as char).to_string(), (canon[i % r] as char).to_string()]));
+                        }
+                    }
+                }
+            }
+            rec["ri"] = json!(String::from_utf8(canon_i).unwrap());
+            rec["rc"] = json!(String::from_utf8(canon_c).unwrap());
+            rec["lens"] = json!(per_len);
+            rec["incons"] = json!(incons);
+            if want_sql {
+                if let Some(w) = sql_bool(&c["e"]) {
+                    let sql = format!("SELECT id FROM t WHERE {w}");
+                    let s2 = sql.clone();
+                    let cref = &ctx;
+                    let rtr = &rt;
+                    rec["sql"] = json!(sql);
+                    rec["sql_ids"] = match catch(std::panic::AssertUnwindSafe(move || rtr.block_on(cref.sql(&s2)))) {
+                        Ok(Ok(res)) => {
+                            let mut ids = Vec::new();
+                            for b in &res.batches {
+                                let a = b.column(0).as_any().downcast_ref::<Int64Array>().unwrap().clone();
+                                ids.extend(a.values().iter().copied());
+                            }
+                            ids.sort_unstable();
+                            let mut s = vec![b'0'; lmax];
+                            for i in &ids {
+                                s[*i as usize] = b'1';
+                            }
+                            json!({"ok": 1, "kept": String::from_utf8(s[..r].to_vec()).unwrap(), "n": ids.len()})
+                        }
+                        Ok(Err(e)) => json!({"ok": 0, "err": e.to_string().chars().take(160).collect::<String>()}),
+                        Err(p) => json!({"ok": 0, "panic": 1, "err": p}),
+                    };
+                }
+            }
+            recs.push(rec);
+        }
+        out.put(&json!({"variant": g["variant"], "recs": recs}));
+    }
+    out.finish();
+    0
+}
